@@ -527,3 +527,29 @@ func VerifH_C11_prepare_step_shapes() {
 		verifrt.Assert(err != nil, "a malformed step definition is rejected with an error")
 	}
 }
+
+// C17 (preparation): two workflows are prepared at the same time by two goroutines (a server preparing
+// workflows per request; nothing in the API forbids it). Nothing of the engine's memory may be touched by
+// both without synchronisation - in particular the package-level state used to generate object identifiers.
+func VerifH_C17_concurrent_prepare() {
+	mk := func() *Workflow {
+		return verifWorkflow(tWorkflow{
+			steps: []tStep{
+				{id: "a", fields: map[string]any{"input": verifStepInput(vx("input"))}},
+			},
+			outputs: map[string]any{"success": map[any]any{"r": vx("steps", "a", "outputs", "success", "v")}},
+		})
+	}
+	done := make(chan error, 2)
+	for k := 0; k < 2; k++ {
+		wf := mk()
+		ex := verifExecutor(newRun())
+		verifrt.Go(func() {
+			_, err := ex.Prepare(wf, nil)
+			done <- err
+		})
+	}
+	e1, e2 := <-done, <-done
+	verifrt.Reach("both-prepared")
+	verifrt.Assert(e1 == nil && e2 == nil, "both workflows are accepted")
+}
